@@ -27,6 +27,13 @@ func init() {
 	mutant(&Mutant{Name: "c14-cmd-input-copy-error-shadowed", Property: "C14", File: "minify.go",
 		Old: "\t} else if _, err := io.Copy(in, r); err != nil {\n\t\treturn err\n\t}\n", New: "\t} else if _, err := io.Copy(in, r); err == nil {\n\t\t_ = in.Sync()\n\t}\n",
 		Rule: "R14.5", Construct: "cmdMinifier.Minify/read of the input"})
+	mutant(&Mutant{Name: "c14-json-empty-input-fast-path", Property: "C14", File: "json/json.go",
+		Old: "\tp := json.NewParser(z)\n", New: "\tif z.Len() == 0 {\n\t\t_, err := w.Write(nil)\n\t\treturn err\n\t}\n\tp := json.NewParser(z)\n",
+		Rule: "R14.1", Construct: "return of the probe's result"})
+	mutant(&Mutant{Name: "c14-xml-buffered-writer-deferred-flush", Property: "C14", File: "xml/xml.go",
+		Old: "\tomitSpace := true // on true the next text token must not start with a space\n", New: "\tomitSpace := true // on true the next text token must not start with a space\n\tbw := bufio.NewWriter(w)\n\tdefer bw.Flush()\n",
+		Old2: "import (\n\t\"io\"\n", New2: "import (\n\t\"bufio\"\n\t\"io\"\n",
+		Rule: "R14.6", Construct: "no lossy buffering"})
 	mutant(&Mutant{Name: "c14-cmd-copy-error-dropped", Property: "C14", File: "minify.go",
 		Old: "\t\tif _, werr := io.Copy(w, out); werr != nil && err == nil {\n\t\t\terr = werr\n\t\t}\n", New: "\t\tio.Copy(w, out)\n",
 		Rule: "R14.4", Construct: "cmdMinifier.Minify"})
@@ -61,6 +68,7 @@ func runC14(c *Ctx) {
 	c.pipeProtocol("R14.3")
 	c.r144()
 	c.r145()
+	c.r146()
 }
 
 // minifierMethods returns the Minify methods of type Minifier in the format packages.
@@ -204,6 +212,40 @@ func (c *Ctx) r141() {
 				continue
 			}
 			if !isNilExpr(r.Results[0]) {
+				// `return err` with err bound by the probe itself is a success return whenever the probe succeeded
+				id, isId := ast.Unparen(r.Results[0]).(*ast.Ident)
+				isProbeErr := false
+				if isId {
+					for _, p := range ps {
+						if info.Uses[id] == p.err {
+							// not inside the probe's own failure branch
+							inFail := false
+							for _, f := range g.DomFacts(n) {
+								for _, sc := range f.Test.Succs {
+									if (sc.Kind == flow.KTrue) == f.Value && errOutcome(info, sc, p.err, false) {
+										inFail = true
+									}
+								}
+							}
+							if !inFail && g.Dominates(p.n, n) {
+								isProbeErr = true
+							}
+						}
+					}
+				}
+				if !isProbeErr {
+					continue
+				}
+				if hasErrCall {
+					eof := false
+					for _, f := range g.DomFacts(n) {
+						if f.Test.Kind == flow.KCond && f.Value && strings.Contains(str(f.Test.Expr), "Err()") && strings.Contains(str(f.Test.Expr), "io.EOF") {
+							eof = true
+						}
+					}
+					kp := len(ps)
+					c.R.Check(eof, rule, fmt.Sprintf("%s/return of the probe's result #%d", fname, kp), c.pos(r), "under Err() == io.EOF", "the result of w.Write(nil) is returned as the result of the whole call — nil when the writer is fine — without asking the lexer/parser whether it stopped at io.EOF: a reader error (which leaves an empty input behind) is reported as success")
+				}
 				continue
 			}
 			k++
@@ -836,4 +878,87 @@ func (c *Ctx) r145() {
 		}
 	}
 	c.R.Floor(rule, "reads of an input reader", n, 3)
+}
+
+// R14.6: nothing buffers between the minifier and the writer that is probed.
+func (c *Ctx) r146() {
+	const rule = "R14.6"
+	c.R.Rule(rule, "the six (*Minifier).Minify methods report a failing writer through the final probe w.Write(nil) on their io.Writer parameter; that only works while every output byte is handed to that same writer before the probe. If the parameter is wrapped in a buffering writer (bufio.NewWriter / NewWriterSize over it), every Flush of the wrapper is a plain (not deferred) call whose error is bound to a variable, and a probe or return of that error follows — a deferred or discarded Flush runs after the probe and its error is lost (the writer accepts the probe, fails on the flushed data, and Minify returns nil)")
+	n := 0
+	for rel, fd := range c.minifierMethods(rule) {
+		pk := c.P.Pkg(rel)
+		info := pk.TypesInfo
+		w := paramOfType(info, fd, "io.Writer")
+		if w == nil {
+			continue
+		}
+		n++
+		var wrappers []types.Object
+		var bad []string
+		ast.Inspect(fd.Body, func(x ast.Node) bool {
+			as, ok := x.(*ast.AssignStmt)
+			if !ok || len(as.Rhs) != 1 || len(as.Lhs) != 1 {
+				return true
+			}
+			call, isCall := ast.Unparen(as.Rhs[0]).(*ast.CallExpr)
+			if !isCall {
+				return true
+			}
+			cn := calleeName(info, call)
+			if (cn == "bufio.NewWriter" || cn == "bufio.NewWriterSize") && len(call.Args) >= 1 {
+				if id, isId := ast.Unparen(call.Args[0]).(*ast.Ident); isId && info.Uses[id] == w {
+					if lid, isL := as.Lhs[0].(*ast.Ident); isL {
+						o := info.Defs[lid]
+						if o == nil {
+							o = info.Uses[lid]
+						}
+						wrappers = append(wrappers, o)
+					}
+				}
+			}
+			return true
+		})
+		for _, wo := range wrappers {
+			flushes := 0
+			ast.Inspect(fd.Body, func(x ast.Node) bool {
+				isFlush := func(call *ast.CallExpr) bool {
+					sel, ok := call.Fun.(*ast.SelectorExpr)
+					if !ok || sel.Sel.Name != "Flush" {
+						return false
+					}
+					id, isId := ast.Unparen(sel.X).(*ast.Ident)
+					return isId && info.Uses[id] == wo
+				}
+				switch st := x.(type) {
+				case *ast.DeferStmt:
+					if isFlush(st.Call) {
+						flushes++
+						bad = append(bad, "deferred "+str(st.Call)+" at "+c.pos(st)+" runs after the probe and its error is dropped")
+					}
+				case *ast.ExprStmt:
+					if call, ok := st.X.(*ast.CallExpr); ok && isFlush(call) {
+						flushes++
+						bad = append(bad, str(call)+" at "+c.pos(st)+" drops its error")
+					}
+				case *ast.AssignStmt:
+					if len(st.Rhs) == 1 {
+						if call, ok := ast.Unparen(st.Rhs[0]).(*ast.CallExpr); ok && isFlush(call) {
+							flushes++
+							if id, isId := st.Lhs[len(st.Lhs)-1].(*ast.Ident); isId && id.Name == "_" {
+								bad = append(bad, str(call)+" at "+c.pos(st)+" assigns its error to _")
+							}
+						}
+					}
+				case *ast.IfStmt:
+					// if err := bw.Flush(); err != nil { return err } is fine (AssignStmt in Init is visited separately)
+				}
+				return true
+			})
+			if flushes == 0 {
+				bad = append(bad, c.P.NameOf(wo)+" buffers the output and is never flushed")
+			}
+		}
+		c.R.Check(len(bad) == 0, rule, rel+".Minifier.Minify/no lossy buffering in front of the probed writer", c.pos(fd), fmt.Sprintf("%d buffering wrapper(s) over the writer parameter", len(wrappers)), strings.Join(bad, "; "))
+	}
+	c.R.Floor(rule, "Minify methods", n, 6)
 }
